@@ -46,8 +46,9 @@ def load_vocab():
 
 
 def _module_private(b):
+    """Not part of the public API: private to a module, or pub(crate) / pub(super)."""
     vis = b.d.get("vis") or ""
-    return vis.startswith("Restricted") and "(0:0 ~" not in vis
+    return vis.startswith("Restricted")
 
 
 def _candidates(crate, vocab):
